@@ -41,13 +41,17 @@ CLAIMS["C05"] = {
             "honest non-membership proof on the EMPTY tree is rejected (theorem nonmembership_complete_fails_empty; needs t != empty).",
 }
 CLAIMS["C01"] = {
-    "text": "Proved in Lean: the canonical compressed trie over a prefix-free leaf set is well defined (a well-formed trie is determined "
-            "by its leaves: wf_unique; insertion order is irrelevant: ofLeaves_perm; equal leaf sets give equal root hashes and, with "
-            "a lawful configuration, the root hash determines the trie: rootHash_injective). The refinement theorem — the code's "
-            "storage-based batch insertion computes exactly that trie with the right digests and epoch metadata — is stated "
-            "(Thm/C01b.lean) and being proved; until it is an obligation, that step rests on the correspondence run: after every "
-            "publish the real root hash is compared with the canonical root over the SPECIFICATION's leaf set (oracle), and the full "
-            "node dump with the executable model of the algorithm.",
+    "text": "Proved in Lean: (a) the canonical compressed trie over a prefix-free leaf set is well defined (a well-formed trie is "
+            "determined by its leaves: wf_unique; insertion order is irrelevant: ofLeaves_perm; with a lawful configuration the root "
+            "hash determines the trie: rootHash_injective); (b) THE REFINEMENT THEOREM batchInsert_refines: the model of the code's "
+            "batch insertion (label-keyed storage with versioned records, sorted/unsorted element sets with binary search, "
+            "decompression, bottom-up re-hashing, last_epoch/min_descendant_epoch with the 0 sentinel) applied to ANY represented "
+            "well-formed trie and ANY prefix-free batch (labels of any length <= 256, both configurations, directory and auditor "
+            "mode) yields storage representing exactly the canonical trie over old + new leaves, with its digests and epoch "
+            "metadata; corollaries: published root hash = canonical root hash, and independence of the batch order. The model of "
+            "the algorithm is tied to the Rust by the correspondence run (full database dump after every publish), and the "
+            "end-to-end statement (root = canonical root over the SPECIFICATION's leaf set, epoch = number of effective "
+            "publishes, re-submissions and duplicate batches without effect) by the oracle line spec.root after every publish.",
     "note": BASE_NOTE,
 }
 CLAIMS["C02"] = {
@@ -78,5 +82,36 @@ CLAIMS["C20"] = {
             "commitment). The property is decided by the correspondence run with oracles spec.root / spec.lookup / "
             "spec.history.tomb after every tombstone step and after further publishes.",
     "note": BASE_NOTE,
+}
+CLAIMS["C16"] = {
+    "text": "Proved in Lean over the storage-manager state machine (Store.lean, every operation in the order of effects of "
+            "manager/mod.rs): the invariant 'the cache holds only what the database holds' survives EVERY operation — writes the "
+            "database rejects, failing commits, eviction of any key set at any time cleaning is enabled (covers all lifetimes, memory "
+            "limits and clean frequencies at once), flushes, transactions (inv_step, inv_run); therefore every single and batched "
+            "read returns the database's record or the pending transaction value, and after a flush the epoch record is read from "
+            "storage. The pinned commit violated it (rejected_write_witness, defect D3, repaired). Model tied to the real "
+            "StorageManager by random operation sequences with injected write failures and real sleeps, with an independent oracle.",
+    "note": BASE_NOTE + "Partial: concurrent tasks on a multi-thread runtime (DashMap shards, a cache fill racing a commit) are not in "
+            "the model; its atomic step is one manager call.",
+}
+CLAIMS["C15"] = {
+    "text": "Proved in Lean: inside a transaction, get / the five user-state retrieval flags / all states / bulk versions return what "
+            "the same read returns on the committed state (for well-formed data), commit hands the database exactly the pending "
+            "records with the epoch record last, rollback discards, a second begin is refused. The pinned commit's bulk-versions "
+            "merge mixed epoch and version (versions_merge_witness, defect D7, repaired). Tied to the real manager by the l1.store "
+            "sequences with a post-commit-copy oracle.",
+    "note": BASE_NOTE + "memory.rs and transaction.rs selection loops are modelled by one `select` function (equal on well-formed data; the "
+            "correspondence run compares them on well-formed streams).",
+}
+CLAIMS["C10"] = {
+    "text": "Proved in Lean: for ANY insertion program (arbitrary reads and transaction-log writes) and a failure at ANY database "
+            "step, a publish that does not succeed leaves the database as it was, no transaction open and the cache coherent, so every "
+            "later read returns what it returned before (publish_fail_no_effect, reads_after_failure); the pinned ordering was wrong "
+            "twice (commit_fail_pollutes_cache: D3; root_read_after_commit_witness: D9). Tied to the real Directory::publish by "
+            "exhaustive fault enumeration over every storage-operation index with the property's statement as oracle (same and "
+            "fresh instance, proofs re-verified, retry), cached/uncached, sequential/parallel insertion.",
+    "note": BASE_NOTE + "The theorem abstracts the insertion; that the real call has the assumed control flow is checked on every recorded "
+            "trace (reads only before the commit write, nothing after it). Detached tasks of the parallel insertion (D10) are a runtime "
+            "behaviour: found by the enumeration, not by the theorem.",
 }
 NOT_YET = {}
